@@ -63,7 +63,7 @@ static void runJob(const Job& j, const std::string* replay) {
 	auto after = [&](const vsched::Result& x) { vf::add(C_EXEC); vf::add(C_POINTS, x.points.size()); if (x.preemptions) vf::add(W_PREEMPT); if (vnet::open_fds()) verdict += fmt("%d descriptor(s) left open; ", vnet::open_fds()); std::string sig = "http_exchange"; if (verdict.compare(0, 5, "[sig=") == 0) sig = verdict.substr(5, verdict.find(']') - 5); if (!verdict.empty()) vf::violation(sig, j.name + ": " + verdict + (x.choices.size() < 500 ? "schedule " + x.trace() : fmt("schedule of %d choices", (int)x.choices.size())), j.name + "|" + x.trace()); };
 	vsched::set_early_timeouts(false);
 	if (replay) { vsched::Result x = vsched::run_once(vsched::parse_schedule(*replay), body, 200000); after(x); }
-	else { vsched::explore(body, after, j.bound, 0, 200000); vf::add(C_JOBS); vf::add(C_EVAL); vf::add(C_DIST); }
+	else { double t0 = vf::now_s(); vsched::ExploreStats st = vsched::explore(body, after, j.bound, 0, 200000); vf::add(C_JOBS); vf::add(C_EVAL); vf::add(C_DIST); if (getenv("VF_DEBUG")) if (FILE* df = fopen(getenv("VF_DEBUG"), "a")) fprintf(df, "JOB %s exec %llu maxpts %llu %.1fs\n", j.name.c_str(), (unsigned long long)st.executions, (unsigned long long)st.max_points, vf::now_s() - t0), fclose(df); }
 	vsched::set_early_timeouts(true);
 }
 
@@ -271,7 +271,7 @@ int main(int argc, char** argv) {
 		for (size_t i = 0; i < sizeof lens / sizeof *lens; i++) jobs.push_back(bigJob(lens[i], 0));
 	} else {
 		const char* methods[] = { "GET", "POST", "PUT" };
-		for (int m = 0; m < 3; m++) for (int len = 0; len <= 20; len++) { if (m == 0 && len > 0) continue; jobs.push_back(echoJob(methods[m], len, len % 3 == 0 ? 200 : len % 3 == 1 ? 201 : 404, (len <= (T ? 9 : 3)) ? 2 : 1)); }
+		for (int m = 0; m < 3; m++) for (int len = 0; len <= 20; len++) { if (m == 0 && len > 0) continue; jobs.push_back(echoJob(methods[m], len, len % 3 == 0 ? 200 : len % 3 == 1 ? 201 : 404, (T && len <= 3) ? 2 : 1)); }
 		for (int n = 0; n <= (T ? 12 : 6); n += 3) jobs.push_back(jsonJob(n, 1));
 		jobs.push_back(rangeJob(-1, 0, 1));
 		for (int b = 0; b <= 6; b++) for (int e = 0; e <= 6; e++) jobs.push_back(rangeJob(b, e, (b + e) % 4 == 0 ? 1 : 0));
